@@ -24,16 +24,22 @@ func (s *Server) processQueryLogsAndStats(dctx *dnsContext) (rc resultCode) {
 	processingTime := time.Since(dctx.startTime)
 
 	ip := pctx.Addr.Addr().AsSlice()
+
+	// Use the original address to find the client and its ignore settings,
+	// since persistent clients are identified by their real addresses, and
+	// only record the anonymized one.
+	origIPStr := net.IP(ip).String()
+
 	s.anonymizer.Load()(ip)
 	ipStr := net.IP(ip).String()
 
 	log.Debug("dnsforward: client ip for stats and querylog: %s", ipStr)
 
-	ids := []string{ipStr}
+	ids := []string{origIPStr}
 	if dctx.clientID != "" {
 		// Use the ClientID first because it has a higher priority.  Filters
 		// have the same priority, see applyAdditionalFiltering.
-		ids = []string{dctx.clientID, ipStr}
+		ids = []string{dctx.clientID, origIPStr}
 	}
 
 	qt, cl := q.Qtype, q.Qclass
